@@ -1031,24 +1031,6 @@ def explain_without_log(sd, key, old, new):
     return f"{key}: change {old!r} -> {new!r} is neither an enum case repair nor a lossless number coercion"
 
 
-# -- known-finding class predicates (input based) -------------------------------------------------
-
-def enum_cycle_class(sd, doc) -> bool:
-    """F40 class: some assignment (any depth) holds a text value for which two different ENUM
-    constraints of its field's chain have *different* single case-insensitive matches."""
-    from octave_mcp.core import constraints as C
-    for _p, n in leaves(doc.sections):
-        if isinstance(n.value, str):
-            ms = set()
-            for c in field_chain(sd, n.key):
-                if isinstance(c, C.EnumConstraint):
-                    m = {v for v in c.allowed_values if v.lower() == n.value.lower()}
-                    if len(m) == 1:
-                        ms |= m
-            if len(ms) >= 2:
-                return True
-    return False
-
 
 # ---------------------------------------------------------------------------------------------
 # G. oracles — C09
